@@ -30,7 +30,7 @@ class Protocol:
             # the marker is what stop() sends
             stm = cx.model.find_method(MOD, s.worker, 'stop')
             if stm is not None:
-                for l in cx.leaves_of(*stm):
+                for l in cx.leaves_dyn(stm):
                     for e in l.effects:
                         if e[0] == 'call' and e[1][0] == 'call' and e[1][1][0] == 'attr' and e[1][1][1] == ('self',) and len(e[1][2]) == 1 and e[1][2][0][0] == 'g' and e[1][2][0][1] == MOD:
                             s.stop = e[1][2][0]
@@ -50,6 +50,54 @@ class Protocol:
         return out
 
 
+def check_stop_marker(cx, rep, pr):
+    """the stop marker travels through the same inbox as the data (audio blocks = bytes for the stream saver, (id, region) tuples
+    for the observers) and is told apart with == / !=: it must be a value no data message can equal"""
+    if pr.stop is None:
+        return
+    lk = cx.model.lookup(pr.stop)
+    if not lk or lk[0] != 'const':
+        rep.unknown('stop marker %s: definition not found' % show(pr.stop))
+        return
+    v = lk[1]
+    kind = None
+    if isinstance(v, ast.Constant):
+        kind = type(v.value).__name__
+    elif isinstance(v, ast.Tuple):
+        kind = 'tuple'
+    elif isinstance(v, ast.Call) and isinstance(v.func, ast.Name):
+        kind = {'bytes': 'bytes', 'bytearray': 'bytearray', 'tuple': 'tuple', 'object': 'object', 'str': 'str'}.get(v.func.id)
+    if kind is None:
+        rep.unknown('stop marker %s = %s: kind of value not recognised' % (pr.stop[2], ast.unparse(v)[:60]))
+        return
+    rep.ob('the stop marker is a value no data message (bytes block, (id, region) tuple) can equal', kind not in ('bytes', 'bytearray', 'tuple', 'NoneType'), cx.where(pr.stop[1], v), '%s:kind' % pr.stop[2],
+           'the stop marker %s is a %s value, which an audio block / a detection message can equal' % (pr.stop[2], kind), sample=dict(stop_marker=pr.stop[2], kind=kind))
+
+
+def check_split_kwargs(cx, rep, tk=None, tdefs=None, genf=None):
+    """the tokenizer worker hands split() the keywords it was given, all of them: split() reads its own options (min_dur ...
+    use_channel, validator) from that dictionary and ignores the rest, so a worker that filters it changes the detections
+    (C12: equal to split(); C15: -u and the other options reach split)"""
+    W = lambda n: cx.where(MOD, n)
+    if tk is None:
+        tk = cx.cls(MOD, 'TokenizerWorker')
+        tdefs = cx.field_defs(MOD, 'TokenizerWorker')
+        genf = [f for f, ds in tdefs.items() if any(d['value'][0] == 'call' and d['value'][1] == ('g', 'core', 'split') for d in ds)]
+    tin = cx.model.find_method(MOD, tk, '__init__')
+    kwp = tin[2].args.kwarg.arg if tin is not None and tin[2].args.kwarg else None
+    for f in genf:
+        for d in tdefs[f]:
+            kws = dict(d['value'][3])
+            if kwp is None or '**' not in kws:
+                rep.unknown('TokenizerWorker.__init__: split() is not called with a ** dictionary (%s)' % show(d['value'])[:80])
+                continue
+            base_ = kws['**']
+            while base_[0] == 'upd':          # kwargs[k] = v before the call only adds an entry (input = the worker itself)
+                base_ = base_[1]
+            rep.ob('F5: split() receives the worker\'s keyword arguments unfiltered (**kwargs as given to the constructor)', base_ == ('p', kwp), W(d['node']), 'TokenizerWorker.__init__:split-kwargs',
+                   'split() is given **%s' % show(kws['**'])[:100], sample=dict(split_kwargs=show(kws['**'])[:60]))
+
+
 def worker_subclasses(cx):
     w = cx.cls(MOD, 'Worker')
     return [(m, c) for m, c in cx.model.subclasses(MOD, w)]
@@ -67,6 +115,7 @@ def check(repo, rep):
         rep.unknown('worker protocol roles not identified (inbox %s, stop marker %s)' % (pr.inbox, pr.stop))
         return
     inbox = pr.inbox[0]
+    check_stop_marker(cx, rep, pr)
     for d in pr.inbox_defs[inbox]:
         v = d['value']
         ok = term_name(v[1]) in ('queue.Queue',) and not v[2] and not v[3]
@@ -80,7 +129,7 @@ def check(repo, rep):
     rep.ob('F1: no subclass re-assigns the inbox', not stores_elsewhere, W(wcls), 'Worker.%s:reassigned' % inbox, 'reassigned in %s' % [x[0] for x in stores_elsewhere])
     # ---------------------------------------------------------------- F2 inbox discipline
     nacc = 0
-    wnames = {c.name for _, c in worker_subclasses(cx)} | {'Worker'}
+    wnames = {c.name for _, c in worker_subclasses(cx)} | {c_.name for _m, c_ in cx.model.mro(MOD, wcls)}       # the worker classes and the package base classes Worker is built from
     for mod, tree in repo.trees.items():
         for n in ast.walk(tree):
             if isinstance(n, ast.Attribute) and n.attr == inbox:
@@ -114,7 +163,7 @@ def check(repo, rep):
     if gm is None:
         rep.unknown('Worker._get_message not found')
     else:
-        for l in cx.leaves_of(*gm):
+        for l in cx.leaves_dyn(gm):
             if l.outcome != 'return':
                 continue
             exc = [e for e in l.effects if e[0] == 'except']
@@ -130,7 +179,7 @@ def check(repo, rep):
     from ..semantic import evaluator, Undecided
     from ..termeval import NotEvaluable
     run = cx.model.find_method(MOD, wcls, 'run')
-    rl = cx.leaves_of(*run)
+    rl = cx.leaves_dyn(run)
     hook = None
     where = cx.where(run[0], run[2])
     STOPVAL = 'STOP-MARKER'
@@ -199,6 +248,7 @@ def check(repo, rep):
     tdefs = cx.field_defs(MOD, 'TokenizerWorker')
     genf = [f for f, ds in tdefs.items() if any(d['value'][0] == 'call' and d['value'][1] == ('g', 'core', 'split') for d in ds)]
     rep.ob('F5: the detections come from split(**kwargs) created once in the constructor', len(genf) == 1, W(tk), 'TokenizerWorker:generator-field', 'candidates %s' % genf)
+    check_split_kwargs(cx, rep, tk, tdefs, genf)
     if len(genf) == 1:
         d = tdefs[genf[0]][0]
         v = d['value']
@@ -213,7 +263,7 @@ def check(repo, rep):
     obs_f = [f for f, ds in tdefs.items() if any(any(x == ('p', 'observers') for x in walk(d['value'])) for d in ds)]
     det_f = [f for f, ds in tdefs.items() if any(d['method'] == '__init__' and d['value'] == ('list', ()) for d in ds)]
     notify = None
-    tl = cx.leaves_of(*trun)
+    tl = cx.leaves_dyn(trun)
     ntr = 0
     for l in tl:
         ntr += 1
@@ -250,7 +300,24 @@ def check(repo, rep):
                     idt, reg = cand[0][1], elem
                     rep.ob('F5: ids are enumerate(detections of split, start=1): 1, 2, 3, ... in detection order', True, where, 'TokenizerWorker.run:enumerate', sample=dict(loop='counter %s over %s' % (cand[0][0], show(it)[:60])))
                 else:
-                    rep.unknown('TokenizerWorker.run: how detections are numbered was not recognised (loop over %s, no enumerate(..., start=1) and no unit counter starting at 0)' % show(it)[:80])
+                    # id = len(<the worker's detections list>) + 1, taken before the detection is appended: a counter exactly as long as
+                    # the list only grows by that one append per iteration (an unbounded list created empty in the constructor)
+                    lenid = None
+                    for c_ in [c for _, c in calls]:
+                        for x in walk(c_):
+                            if x[0] == 'bin' and x[1] == '+' and ('c', 1) in (x[2], x[3]):
+                                o_ = x[3] if x[2] == ('c', 1) else x[2]
+                                if o_[0] == 'call' and o_[1] == ('b', 'len') and len(o_[2]) == 1 and o_[2][0][0] == 'attr' and o_[2][0][1] == ('self',):
+                                    lenid = (x, o_[2][0][2])
+                    if lenid is not None:
+                        fdef = [d['value'] for d in tdefs.get(lenid[1], []) if d['method'] == '__init__']
+                        grows = bool(fdef) and all(v == ('list', ()) for v in fdef)
+                        idt, reg = lenid[0], elem
+                        rep.ob('F5: ids are enumerate(detections of split, start=1): 1, 2, 3, ... in detection order', grows, where, 'TokenizerWorker.run:enumerate',
+                               'the id is len(self.%s) + 1 and self.%s is created as %s: its length counts the detections only if it is an unbounded list that starts empty' % (lenid[1], lenid[1], [show(v)[:50] for v in fdef]),
+                               sample=dict(loop='len(self.%s) + 1 over %s' % (lenid[1], show(it)[:60])))
+                    else:
+                        rep.unknown('TokenizerWorker.run: how detections are numbered was not recognised (loop over %s, no enumerate(..., start=1) and no unit counter starting at 0)' % show(it)[:80])
                     continue
             else:
                 rep.ob('F5: ids are enumerate(detections of split, start=1): 1, 2, 3, ... in detection order', oke, where, 'TokenizerWorker.run:enumerate', 'loop over %s' % show(it)[:100], sample=dict(loop=show(it)[:90]))
@@ -288,13 +355,29 @@ def check(repo, rep):
                 else:
                     rep.unknown('TokenizerWorker.run: detection record %s not understood' % show(dv)[:80])
     rep.floor('TokenizerWorker.run paths', ntr, 2)
+    # the public `detections` view is the live list run() appends to (read at any time it shows what has been detected so far)
+    dget = next((f for f in tk.body if isinstance(f, ast.FunctionDef) and f.name == 'detections' and f.decorator_list and not any(isinstance(d, ast.Attribute) and d.attr in ('setter', 'deleter') for d in f.decorator_list)), None)
+    if dget is not None and det_f:
+        decos = [ast.unparse(d).split('.')[-1] for d in dget.decorator_list]
+        cached = any(d in ('cached_property', 'cache', 'lru_cache') or d.startswith('lru_cache') for d in decos)
+        for l in cx.leaves_of(MOD, tk, dget):
+            if l.outcome != 'return' or l.value is None:
+                continue
+            v = l.value
+            live = v[0] == 'attr' and v[1] == ('self',) and v[2] in det_f
+            copy = v[0] == 'call' and v[1] in (('b', 'list'), ('b', 'tuple')) and len(v[2]) == 1 and v[2][0][0] == 'attr' and v[2][0][1] == ('self',) and v[2][0][2] in det_f
+            if not live and not copy:
+                rep.unknown('TokenizerWorker.detections: returns %s, neither the detections list nor a copy of it' % show(v)[:80])
+                continue
+            rep.ob('F5: the detections view shows the list run() appends to, as it is when read (the list itself, or an uncached copy)', live or (copy and not cached), cx.where(MOD, dget), 'TokenizerWorker.detections:view',
+                   'returns %s under %s' % (show(v)[:60], decos), sample=dict(getter='detections', returns=show(v)[:60], decorators=decos))
     # ---------------------------------------------------------------- F6 notify all observers
     if notify is None:
         rep.unknown('TokenizerWorker: notification helper not identified')
     else:
         nm = cx.model.find_method(MOD, tk, notify)
         looped = 0
-        for l in cx.leaves_of(*nm):
+        for l in cx.leaves_dyn(nm):
             ins = [e for e in l.effects if e[0] == 'loop-enter']
             if not ins:
                 continue
@@ -307,15 +390,53 @@ def check(repo, rep):
             early = any(e[1] in ('break',) for e in exits) or l.outcome in ('return', 'raise')
             rep.ob('F6: the message is sent to EVERY observer, unconditionally, without leaving the loop early', ok and not early, cx.where(nm[0], nm[2]), 'TokenizerWorker.%s' % notify,
                    'iterates %s, sends %s, conditions %s, loop exit %s' % (show(it), [show(s_[1])[:50] for s_ in sends], [(show(c[0])[:30], c[1]) for c in l.conds], [e[1] for e in exits]), sample=dict(notify=[show(s_[1])[:60] for s_ in sends]))
+        if not looped:
+            # no loop statement: a comprehension / generator expression over the observers that sends the message
+            sm = cx.model.find_method(MOD, pr.worker, 'send')
+            send_vals = set()
+            if sm is not None:
+                for l2 in cx.leaves_dyn(sm):
+                    if l2.outcome == 'fall' or (l2.outcome == 'return' and l2.value == ('c', None)):
+                        send_vals.add('none')
+                    elif l2.outcome == 'return' and l2.value is not None and l2.value[0] == 'c':
+                        send_vals.add('truthy' if l2.value[1] else 'falsy')
+                    elif l2.outcome == 'return':
+                        send_vals.add('unknown')
+            for l in cx.leaves_dyn(nm):
+                for t in [e[1] for e in l.effects if e[0] in ('call', 'eval')] + ([l.value] if l.value is not None else []):
+                    for x in walk(t):
+                        if x[0] in ('gen', 'listcomp', 'setcomp') and len(x[2]) == 1 and x[2][0][1][0] == 'attr' and x[2][0][1][1] == ('self',) and x[2][0][1][2] in obs_f:
+                            var = x[2][0][0]
+                            elt = x[1]
+                            oksend = elt[0] == 'call' and elt[1] == ('attr', ('lp', var), 'send') and elt[2] == (('p', nm[2].args.args[1].arg),) and not x[2][0][2]
+                            # who consumes it: any() / all() stop at the first truthy / falsy element
+                            consumer = next((y for y in walk(t) if y[0] == 'call' and y[1][0] == 'b' and y[2] and y[2][0] == x), None)
+                            cname = consumer[1][1] if consumer else None
+                            if x[0] == 'gen' and cname == 'any':
+                                full = send_vals <= {'none', 'falsy'} and bool(send_vals)
+                            elif x[0] == 'gen' and cname == 'all':
+                                full = send_vals <= {'truthy'} and bool(send_vals)
+                            elif x[0] in ('listcomp', 'setcomp') or cname in ('list', 'tuple', 'sum', 'sorted', 'set', 'len', 'max', 'min'):
+                                full = True
+                            else:
+                                rep.unknown('TokenizerWorker.%s: the generator expression over the observers is consumed by %s, which is not modelled' % (notify, cname))
+                                continue
+                            if 'unknown' in send_vals and cname in ('any', 'all'):
+                                rep.unknown('TokenizerWorker.%s: %s() over send() results whose truth value is not known' % (notify, cname))
+                                continue
+                            looped += 1
+                            rep.ob('F6: the message is sent to EVERY observer, unconditionally, without leaving the loop early', oksend and full, cx.where(nm[0], nm[2]), 'TokenizerWorker.%s' % notify,
+                                   '%s(%s) over the observers; send() returns %s' % (cname or x[0], show(elt)[:50], sorted(send_vals)), sample=dict(notify=show(t)[:80]))
+                            break
         rep.floor('notification loop paths', looped, 1)
     # send = put on the receiver's own inbox
     sd = cx.model.find_method(MOD, wcls, 'send')
-    for l in cx.leaves_of(*sd):
+    for l in cx.leaves_dyn(sd):
         puts = [e[1] for e in l.effects if e[0] == 'call' and pr.is_inbox_call(e[1], ('put', 'put_nowait'))]
         rep.ob('F6: send(message) puts exactly that message into the inbox', len(puts) == 1 and puts[0][2] == (('p', sd[2].args.args[1].arg),) and not l.conds, cx.where(sd[0], sd[2]), 'Worker.send', 'puts %s' % [show(p_)[:60] for p_ in puts])
     # ---------------------------------------------------------------- F7 / F8
     st = cx.model.find_method(MOD, wcls, 'stop')
-    for l in cx.leaves_of(*st):
+    for l in cx.leaves_dyn(st):
         cs = [e[1] for e in l.effects if e[0] == 'call' and e[1][0] == 'call' and e[1][1][0] == 'attr' and e[1][1][1] == ('self',)]
         names = [c[1][2] for c in cs]
         ok = 'send' in names and 'join' in names and names.index('send') < names.index('join') and pr.isstop(cs[names.index('send')][2][0]) and not l.conds
@@ -327,9 +448,9 @@ def check(repo, rep):
     if sa_ is None:
         rep.unknown('TokenizerWorker.start_all not found')
     else:
-        anyloop = any(e[0] == 'loop-enter' and e[1][0] == 'attr' and e[1][2] in obs_f for l in cx.leaves_of(*sa_) for e in l.effects)
+        anyloop = any(e[0] == 'loop-enter' and e[1][0] == 'attr' and e[1][2] in obs_f for l in cx.leaves_dyn(sa_) for e in l.effects)
         rep.ob('F8: start_all starts the observers (a loop over the observer list exists)', anyloop, cx.where(sa_[0], sa_[2]), 'TokenizerWorker.start_all:no-observer-loop')
-        for l in cx.leaves_of(*sa_):
+        for l in cx.leaves_dyn(sa_):
             ins = [e for e in l.effects if e[0] == 'loop-enter']
             selfstart = [e for e in l.effects if e[0] == 'call' and e[1] == ('call', ('attr', ('self',), 'start'), (), ())]
             rep.ob('F8: start_all starts the tokenizer worker itself', len(selfstart) == 1, cx.where(sa_[0], sa_[2]), 'TokenizerWorker.start_all:self')
@@ -369,7 +490,7 @@ def check(repo, rep):
             rep.ob('F10: every concrete worker using the generic loop defines the message hook (self, message)', ok, cx.where(m, c), '%s:%s' % (c.name, hook), 'hook %s' % (('%s.%s%s' % (h[1].name, h[2].name, [a.arg for a in h[2].args.args])) if h else None))
             if ok and c.name != 'StreamSaverWorker':
                 # observers unpack (id, region)
-                lv = cx.leaves_of(*h)
+                lv = cx.leaves_dyn(h)
                 pn = h[2].args.args[1].arg
                 uses = {x[2][1] for l in lv for e in l.effects for t_ in (e[1], e[2]) if isinstance(t_, tuple) for x in walk(t_)
                         if x[0] == 'sub' and x[1] == ('p', pn) and x[2][0] == 'c' and isinstance(x[2][1], int)}
